@@ -10,6 +10,7 @@ CONSTANTS
   Ops <- mcOps
   ProbeLrus <- mcProbe
   MaxLevel = 4
+  EmitT = FALSE
 INVARIANT ReportsAgree
 INVARIANT Refines
 INVARIANT Structure
